@@ -49,16 +49,27 @@ class RandomVectorizedStrategy(vb.VectorizedStrategy[None]):
 
     self._suggestion_batch_size = suggestion_batch_size
     self.n_feature_dimensions_with_padding = n_feature_dimensions_with_padding
-    self.n_feature_dimensions = n_feature_dimensions_with_padding
+    # The optimizer zeroes the feature dimensions beyond `n_feature_dimensions`.
+    self.n_feature_dimensions = types.ContinuousAndCategorical(
+        len(converter.output_specs.continuous),
+        len(converter.output_specs.categorical),
+    )
     self.dtype = types.ContinuousAndCategorical(jnp.float64, types.INT_DTYPE)
 
     self._categorical_logits = None
     if categorical_sizes:
-      categorical_logits = np.zeros(
-          [len(categorical_sizes), max(categorical_sizes)]
+      # One row per (padded) categorical feature; a padding feature has the
+      # single category 0.
+      categorical_logits = np.full(
+          [
+              n_feature_dimensions_with_padding.categorical,
+              max(categorical_sizes),
+          ],
+          -np.inf,
       )
+      categorical_logits[:, 0] = 0.0
       for i, s in enumerate(categorical_sizes):
-        categorical_logits[i, s:] = -np.inf
+        categorical_logits[i, :s] = 0.0
       self._categorical_logits = categorical_logits
 
   def init_state(
